@@ -2,13 +2,13 @@ import Verif.Model.SSH
 /-!
   Line-protocol driver for C14 (SSH certificates: type, key id, principals, signer; SSH-POP).
 
-  op=sign   prov=jwk|x5c|oidc|oidcadm|nebula cau=0|1 cah=0|1 dbe=0|1 epc=0|1 sub=x… ssh=0|1 tct=x… tkid=x… tpr=<list>
-            oem=x… ousr=<list> nbn=x… nbi=<list> tpip=<list of x…|!> rct=x… rkid=x… rpr=<list> key=ok|rsasmall|dsa
+  op=sign   prov=jwk|x5c|oidc|oidcadm|nebula|k8ssa cau=0|1 cah=0|1 dbe=0|1 epc=0|1 sub=x… ssh=0|1 tct=x… tkid=x… tpr=<list>
+            oem=x… ousr=<list> nbn=x… nbi=<list> tpip=<list of x…|!> tva=-|<n> tvb=-|<n> rva=-|<n> rvb=-|<n> rct=x… rkid=x… rpr=<list> au=0|1 scfg=0|1 key=ok|rsasmall|dsa
   op=renew|rekey|revoke
             cau= cah= dren=0|1 aexp=0|1 ct=<n> kid=x… pr=<list> pco=<kv list> pex=<kv list> su=0|1 sh=0|1 ny=0|1 ex=0|1 hv=0|1
             tsig= tcl= taud= tsub= tser= rev=0|1 key=ok|rsasmall|dsa
   list = x<hex> items joined by ',' or `-` when empty.
-  Output: unauth | refuse:<status> | refuse | authorized | issue ct=<n> kid=x… pr=<list> [co=<kv list> ex=<kv list>] by=user|host      (kv = x<key>:x<value>)
+  Output: unauth | refuse:<status> | refuse | authorized | issue ct=<n> kid=x… pr=<list> [va=<n>|* vb=<n>|*] [co=<kv list> ex=<kv list>] by=user|host      (kv = x<key>:x<value>)
 -/
 open Verif Verif.SSH
 
@@ -36,6 +36,12 @@ def kv? (t : String) : Option (Str × Str) :=
 
 def kvS (l : List (Str × Str)) : String := listS (l.map fun p => s!"{xs p.1}:{xs p.2}")
 
+def optNat? (t : String) : Option (Option Nat) :=
+  if t = "-" then some none else t.toNat?.map some
+
+def natS : Option Nat → String
+  | none => "*" | some n => toString n
+
 def key? (t : String) : Option KeyClass :=
   match t with
   | "ok" => some .ok | "rsasmall" => some .rsaSmall | "dsa" => some .dsa | _ => none
@@ -43,7 +49,7 @@ def key? (t : String) : Option KeyClass :=
 def prov? (t : String) : Option Prov :=
   match t with
   | "jwk" => some .jwk | "x5c" => some .x5c
-  | "oidc" => some (.oidc false) | "oidcadm" => some (.oidc true) | "nebula" => some .nebula | _ => none
+  | "oidc" => some (.oidc false) | "oidcadm" => some (.oidc true) | "nebula" => some .nebula | "k8ssa" => some .k8ssa | _ => none
 
 def signerS : Signer → String
   | .userKey => "user" | .hostKey => "host"
@@ -65,12 +71,22 @@ def eval (line : String) : Option String := do
     let tok : Token := ⟨(← str? (← get "sub")), if hasSSH then some topts else none⟩
     let optStr? := fun (x : String) => if x = "!" then some none else (str? x).map some
     let o : Oidc := ⟨(← str? (← get "oem")), (← list? str? (← get "ousr")), (← str? (← get "nbn")),
-      (← list? str? (← get "nbi")), (← list? optStr? (← get "tpip"))⟩
+      (← list? str? (← get "nbi")), (← list? optStr? (← get "tpip")), (← optNat? (← get "tva")), (← optNat? (← get "tvb"))⟩
+    let rv : RVal := ⟨(← optNat? (← get "rva")), (← optNat? (← get "rvb"))⟩
     let req : Opts := ⟨(← str? (← get "rct")), (← str? (← get "rkid")), (← list? str? (← get "rpr"))⟩
-    match sshSign ca (← prov? (← get "prov")) tok o req key with
+    match sshSign ca (← prov? (← get "prov")) tok o req key rv with
     | .refused 401 => pure "unauth"
     | .refused st => pure s!"refuse:{st}"
-    | .issued c sg => pure s!"issue {certS c} by={signerS sg}"
+    | .issued c sg =>
+      let cv := certValidity ⟨o.tva, o.tvb⟩ rv
+      if (← bool? (← get "au")) then
+        match signAddUserM true (← bool? (← get "scfg")) c with
+        | .crash => pure "crash"
+        | .val none => pure s!"issue {certS c} va={natS cv.va} vb={natS cv.vb} by={signerS sg} au=none"
+        | .val (some a) =>
+          pure s!"issue {certS c} va={natS cv.va} vb={natS cv.vb} by={signerS sg} au=kid={xs a.keyID},pr={listS (a.principals.map xs)},fc={xs a.forceCommand}"
+      else
+        pure s!"issue {certS c} va={natS cv.va} vb={natS cv.vb} by={signerS sg}"
   | op =>
     let cfg : PopCfg := ⟨ca, (← bool? (← get "dren")), (← bool? (← get "aexp"))⟩
     let c : PopCert := {
